@@ -25,6 +25,109 @@ func (ex *Exec) ivalOf(v *smt.Term) ival {
 	return ival{0, maxOf(v.W)}
 }
 
+// rangeOf is a sound unsigned interval for bit-vector term t under the learnt
+// variable intervals: a small abstract interpreter over the term DAG. Anything
+// it does not understand (or that may wrap around) is the full range.
+func (ex *Exec) rangeOf(t *smt.Term) ival {
+	if t.W == 0 {
+		return ival{0, 1}
+	}
+	if t.Op == smt.OConst {
+		return ival{t.Val, t.Val}
+	}
+	if t.Op == smt.OVar {
+		return ex.ivalOf(t)
+	}
+	if r, ok := ex.rangeMemo[t]; ok {
+		return r
+	}
+	top := ival{0, maxOf(t.W)}
+	r := top
+	switch t.Op {
+	case smt.OZext:
+		r = ex.rangeOf(t.A[0])
+	case smt.OExtract:
+		lo := uint8(t.Val & 0xff)
+		a := ex.rangeOf(t.A[0])
+		if lo == 0 && a.hi <= top.hi {
+			r = a
+		} else if a.hi>>lo <= top.hi {
+			r = ival{a.lo >> lo, a.hi >> lo}
+		}
+	case smt.OConcat:
+		h, l := ex.rangeOf(t.A[0]), ex.rangeOf(t.A[1])
+		w := t.A[1].W
+		r = ival{h.lo<<w | l.lo, h.hi<<w | l.hi}
+		if h.lo != h.hi {
+			r = ival{h.lo << w, h.hi<<w | maxOf(w)}
+		}
+	case smt.OIte:
+		a, b := ex.rangeOf(t.A[1]), ex.rangeOf(t.A[2])
+		r = ival{min(a.lo, b.lo), max(a.hi, b.hi)}
+	case smt.OBvAdd:
+		a, b := ex.rangeOf(t.A[0]), ex.rangeOf(t.A[1])
+		if a.hi <= top.hi-b.hi { // no wrap-around
+			r = ival{a.lo + b.lo, a.hi + b.hi}
+		}
+	case smt.OBvSub:
+		a, b := ex.rangeOf(t.A[0]), ex.rangeOf(t.A[1])
+		if a.lo >= b.hi { // never negative
+			r = ival{a.lo - b.hi, a.hi - b.lo}
+		}
+	case smt.OBvAnd:
+		a, b := ex.rangeOf(t.A[0]), ex.rangeOf(t.A[1])
+		r = ival{0, min(a.hi, b.hi)}
+	case smt.OBvOr, smt.OBvXor:
+		a, b := ex.rangeOf(t.A[0]), ex.rangeOf(t.A[1])
+		m := a.hi | b.hi
+		for k := uint(1); k < 64; k <<= 1 { // round up to 2^n-1
+			m |= m >> k
+		}
+		r = ival{0, m}
+		if t.Op == smt.OBvOr {
+			r.lo = max(a.lo, b.lo)
+		}
+	case smt.OBvLshr:
+		if t.A[1].Op == smt.OConst && t.A[1].Val < 64 {
+			a := ex.rangeOf(t.A[0])
+			r = ival{a.lo >> t.A[1].Val, a.hi >> t.A[1].Val}
+		} else {
+			r = ival{0, ex.rangeOf(t.A[0]).hi}
+		}
+	case smt.OBvShl:
+		if t.A[1].Op == smt.OConst && t.A[1].Val < 64 {
+			a := ex.rangeOf(t.A[0])
+			k := t.A[1].Val
+			if a.hi <= top.hi>>k {
+				r = ival{a.lo << k, a.hi << k}
+			}
+		}
+	case smt.OBvUrem:
+		a, b := ex.rangeOf(t.A[0]), ex.rangeOf(t.A[1])
+		if b.lo > 0 { // x % 0 = x in SMT-LIB
+			r = ival{0, min(a.hi, b.hi-1)}
+		}
+	case smt.OBvUdiv:
+		a, b := ex.rangeOf(t.A[0]), ex.rangeOf(t.A[1])
+		if b.lo > 0 {
+			r = ival{a.lo / b.hi, a.hi / b.lo}
+		}
+	case smt.OBvMul:
+		a, b := ex.rangeOf(t.A[0]), ex.rangeOf(t.A[1])
+		if a.hi == 0 || b.hi <= top.hi/a.hi {
+			r = ival{a.lo * b.lo, a.hi * b.hi}
+		}
+	}
+	if r.lo > r.hi || r.hi > top.hi {
+		r = top
+	}
+	if ex.rangeMemo == nil {
+		ex.rangeMemo = map[*smt.Term]ival{}
+	}
+	ex.rangeMemo[t] = r
+	return r
+}
+
 // varConst matches a comparison between a variable and a constant.
 // swapped reports that the constant is the left operand.
 func varConst(t *smt.Term) (v *smt.Term, c uint64, swapped, ok bool) {
@@ -118,8 +221,9 @@ func (ex *Exec) learn(t *smt.Term, positive bool) {
 			iv.lo = c
 		}
 	}
-	if iv.lo <= iv.hi {
+	if iv.lo <= iv.hi && iv != ex.ivalOf(v) {
 		ex.ivals[v] = iv
+		ex.rangeMemo = nil
 	}
 }
 
@@ -155,46 +259,44 @@ func (ex *Exec) quick(t *smt.Term) (known, val bool) {
 			return true, false
 		}
 		return false, false
-	case smt.OUlt, smt.OUle, smt.OEq:
-		v, c, swapped, ok := varConst(t)
-		if !ok {
+	case smt.OUlt, smt.OUle, smt.OEq, smt.OSlt, smt.OSle:
+		a, b := t.A[0], t.A[1]
+		if a == nil || b == nil || a.W == 0 {
 			return false, false
 		}
-		iv := ex.ivalOf(v)
-		switch {
-		case t.Op == smt.OEq:
-			if c < iv.lo || c > iv.hi {
+		ra, rb := ex.rangeOf(a), ex.rangeOf(b)
+		op := t.Op
+		if op == smt.OSlt || op == smt.OSle {
+			// both sides known non-negative: signed and unsigned order agree
+			if half := maxOf(a.W) >> 1; ra.hi > half || rb.hi > half {
+				return false, false
+			}
+			if op == smt.OSlt {
+				op = smt.OUlt
+			} else {
+				op = smt.OUle
+			}
+		}
+		switch op {
+		case smt.OEq:
+			if ra.hi < rb.lo || rb.hi < ra.lo {
 				return true, false
 			}
-			if iv.lo == iv.hi {
+			if ra.lo == ra.hi && rb.lo == rb.hi {
+				return true, true // equal: the ranges are not disjoint
+			}
+		case smt.OUlt:
+			if ra.hi < rb.lo {
 				return true, true
 			}
-		case t.Op == smt.OUlt && !swapped: // v < c
-			if iv.hi < c {
-				return true, true
-			}
-			if iv.lo >= c {
+			if ra.lo >= rb.hi {
 				return true, false
 			}
-		case t.Op == smt.OUle && !swapped: // v <= c
-			if iv.hi <= c {
+		case smt.OUle:
+			if ra.hi <= rb.lo {
 				return true, true
 			}
-			if iv.lo > c {
-				return true, false
-			}
-		case t.Op == smt.OUlt && swapped: // c < v
-			if c < iv.lo {
-				return true, true
-			}
-			if c >= iv.hi {
-				return true, false
-			}
-		case t.Op == smt.OUle && swapped: // c <= v
-			if c <= iv.lo {
-				return true, true
-			}
-			if c > iv.hi {
+			if ra.lo > rb.hi {
 				return true, false
 			}
 		}
